@@ -985,3 +985,17 @@ V("exactly-eq-upper-side-lost", "break", ["C01"], P + "exactly_eq_propagator.py"
 V("count-eq-lower-bound-not-stored", "break", ["C01"], P + "count_eq_propagator.py", "    counter[MIN] = max(counter[MIN], count_min)\n", "",
   "the number of variables already equal to a no longer raises the counter's minimum (nor fails against its maximum)", "compute_domains_count_eq", expect_rule="R-TWO-SIDED")
 V("exactly-true-tests-mirrored", "neutral", ["C01", "C07"], P + "exactly_true_propagator.py", "            if count_min > 0:\n", "            if 0 < count_min:\n", "mirrored comparison")
+# ---- round 6: a semaphore shared with the workers (C18-x3)
+_SEM_EDITS = lambda acq: [
+    {"old": "from multiprocessing import Process, Queue\n", "new": "from multiprocessing import BoundedSemaphore, Process, Queue, cpu_count\n"},
+    {"old": "        solutions: Queue = Queue()\n        processes = []\n", "new": "        solutions: Queue = Queue()\n        slots = BoundedSemaphore(cpu_count())\n        processes = []\n", "all": True},
+    {"old": "            process = Process(target=solver.solve_and_queue, args=(proc_idx, solutions))\n",
+     "new": "            " + acq + "\n            process = Process(target=run_processor, args=(slots, solver.solve_and_queue, proc_idx, solutions))\n"},
+    {"old": "            process = Process(target=(getattr(solver, proc_func_name)), args=(variable_idx, proc_idx, solutions))\n",
+     "new": "            " + acq + "\n            process = Process(target=run_processor, args=(slots, getattr(solver, proc_func_name), variable_idx, proc_idx, solutions))\n"},
+    {"old": "QUEUE_TIMEOUT = 1.0", "new": "def run_processor(slots: Any, proc_func: Callable, *args: Any) -> None:\n    try:\n        proc_func(*args)\n    finally:\n        slots.release()\n\n\nQUEUE_TIMEOUT = 1.0"},
+]
+V("spawn-throttled-blocking-acquire", "break", ["C18"], MP, None, None, "start-up throttled by a semaphore the workers release: acquire() without a timeout in the parent; killed workers never release", None,
+  edits=_SEM_EDITS("slots.acquire()"), expect_rule="R-LIVENESS")
+V("spawn-throttled-timed-acquire", "neutral", ["C18", "C11", "C12"], MP, None, None, "the same throttle with a bounded acquire (the worker is started anyway after the timeout); the wrapper forwards entry point and arguments",
+  edits=_SEM_EDITS("slots.acquire(timeout=QUEUE_TIMEOUT)"))
